@@ -133,7 +133,7 @@ theorem grows_trans {a b c : List NetNode} (ha : ∀ x ∈ a, StoreOK C x.st) (h
 /-- replacing a node by one that grew but stays below the join leaves the join unchanged -/
 theorem join_set {nodes : List NetNode} {n : Nat} {nd nd' : NetNode} (h : ∀ x ∈ nodes, StoreOK C x.st)
     (hn : nodes[n]? = some nd) (hst : StoreOK C nd'.st) (hle : StLe nd.st nd'.st)
-    (hb : ∀ k, ole (NMap.get nd'.st k) (joinOf nodes k)) (k : Nat) :
+    (k : Nat) (hb : ole (NMap.get nd'.st k) (joinOf nodes k)) :
     joinOf (nodes.set n nd') k = joinOf nodes k := by
   have h' : ∀ x ∈ nodes.set n nd', StoreOK C x.st := by
     intro x hx
@@ -144,7 +144,7 @@ theorem join_set {nodes : List NetNode} {n : Nat} {nd nd' : NetNode} (h : ∀ x 
   · apply joinAt_least hC h' k (joinAt_oc hC h k)
     intro x hx
     rcases mem_set_cases hx with rfl | hx
-    · exact hb k
+    · exact hb
     · exact joinAt_upper hC h k x hx
   · apply joinAt_least hC h k (joinAt_oc hC h' k)
     intro x hx
@@ -177,8 +177,9 @@ theorem step_merge {nodes : List NetNode} {resps : List (Nat × Response)} {n : 
   rw [← hst] at h1 h2
   refine ⟨inv_set hC hi hn h1 h2, grows_set hC hi.1 hn h2, ?_⟩
   intro hbel k
-  apply join_set hC hi.1 hn h1 h2 _ k
+  apply join_set hC hi.1 hn h1 h2 k
   rw [hst]
+  revert k
   apply applyDeltas_below hC hnd hd (fun k => joinAt_oc hC hi.1 k)
   · intro k; exact joinAt_upper hC hi.1 k nd (List.mem_of_getElem? hn)
   · intro d hdm
@@ -264,6 +265,58 @@ theorem step_ok (H : Hasher) (net : Net) (act : NetAct) (hi : NetInv C net) (ha 
         have := step_merge hC (nd' := { nd with st := applyDeltas nd.st rs.deltas }) (ds := rs.deltas) hi hn rfl
           (fun d hd => (hi.2 _ hmem d hd).1)
         exact ⟨this.1, this.2.1, fun _ => this.2.2 (fun d hd => (hi.2 _ hmem d hd).2)⟩
+
+/-- **a local write is the ONLY way the session-wide merge changes, and it changes it by exactly
+    the written value**: after `put n k v` on an existing node the merge of all states is
+    `merge(before, v)` for key `k` and unchanged for every other key -/
+theorem put_joins_exactly (H : Hasher) (net : Net) (n k : Nat) (v : RV) (nd : NetNode) (hi : NetInv C net)
+    (hn : net.nodes[n]? = some nd) (hv : C k v) (k' : Nat) :
+    (net.step H (.put n k v)).joinAt k'
+      = if k' = k then optMerge RV.merge (net.joinAt k) (some v) else net.joinAt k' := by
+  have hnd : StoreOK C nd.st := hi.1 nd (List.mem_of_getElem? hn)
+  have hst' : StoreOK C (applyDelta nd.st (k, v)) := storeOK_applyDelta hC hnd hv
+  have hle : StLe nd.st (applyDelta nd.st (k, v)) := stLe_applyDelta hC hnd hv
+  simp only [Net.step, hn, joinAt_eq]
+  have h' : ∀ x ∈ net.nodes.set n { nd with st := applyDelta nd.st (k, v), mgr := nd.mgr.onLocalWrite }, StoreOK C x.st := by
+    intro x hx
+    rcases mem_set_cases hx with rfl | hx
+    · exact hst'
+    · exact hi.1 x hx
+  have hself := mem_set_self (l := net.nodes) (b := ({ nd with st := applyDelta nd.st (k, v), mgr := nd.mgr.onLocalWrite } : NetNode)) hn
+  have hA := aci_opt (hC k')
+  have hJ := joinAt_oc hC hi.1 k'
+  have hJ' := joinAt_oc hC h' k'
+  by_cases hk : k' = k
+  · subst hk
+    simp only [if_true]
+    have hU : OC C k' (optMerge RV.merge (joinOf net.nodes k') (some v)) := hA.closed _ _ hJ (oc_some hv)
+    apply hA.le_antisymm hJ' hU
+    · apply joinAt_least hC h' k' hU
+      intro x hx
+      rcases mem_set_cases hx with rfl | hx
+      · show ole (NMap.get (applyDelta nd.st (k', v)) k') _
+        rw [get_applyDelta_opt]; simp only [if_true]
+        exact hA.merge_le (hnd.oc k') (oc_some hv) hU
+          (hA.le_trans (hnd.oc k') hJ hU (joinAt_upper hC hi.1 k' nd (List.mem_of_getElem? hn)) (hA.le_merge_left hJ (oc_some hv)))
+          (hA.le_merge_right hJ (oc_some hv))
+      · exact hA.le_trans ((hi.1 x hx).oc k') hJ hU (joinAt_upper hC hi.1 k' x hx) (hA.le_merge_left hJ (oc_some hv))
+    · apply hA.merge_le hJ (oc_some hv) hJ'
+      · apply joinAt_least hC hi.1 k' hJ'
+        intro x hx
+        rcases mem_set_of_mem (b := ({ nd with st := applyDelta nd.st (k', v), mgr := nd.mgr.onLocalWrite } : NetNode)) hn hx with hx' | rfl
+        · exact joinAt_upper hC h' k' x hx'
+        · exact hA.le_trans ((hi.1 x hx).oc k') (hst'.oc k') hJ' (hle k') (joinAt_upper hC h' k' _ hself)
+      · have := joinAt_upper hC h' k' _ hself
+        have hg : NMap.get (applyDelta nd.st (k', v)) k' = optMerge RV.merge (NMap.get nd.st k') (some v) := by
+          rw [get_applyDelta_opt]; simp
+        simp only [hg] at this
+        exact hA.le_trans (oc_some hv) (hA.closed _ _ (hnd.oc k') (oc_some hv)) hJ' (hA.le_merge_right (hnd.oc k') (oc_some hv)) this
+  · simp only [hk, if_false]
+    apply join_set hC hi.1 hn hst' hle k'
+    show ole (NMap.get (applyDelta nd.st (k, v)) k') _
+    rw [get_applyDelta_opt]
+    simp only [hk, if_false]
+    exact joinAt_upper hC hi.1 k' nd (List.mem_of_getElem? hn)
 
 /-! ## any interleaving -/
 
